@@ -1059,6 +1059,23 @@ def replay_m(path):
                 bad.append((q['src'], t))
         print(json.dumps(bad[:5], indent=1))
         return bool(bad)
+    if d.get('kind') == 'euclid':
+        err = build_tool('render')
+        inp = '\n'.join(json.dumps(q) for q in d['requests']) + '\n'
+        p = subprocess.run([os.path.join(BUILD, 'native', 'debug', 'render')], input=inp, stdout=subprocess.PIPE, stderr=subprocess.PIPE, text=True, timeout=120)
+        outs = [json.loads(l) for l in p.stdout.split('\n') if l.strip()]
+        bad = []
+        for q, o in zip(d['requests'], outs):
+            a, b = q['ctx']['a'], q['ctx']['b']
+            try:
+                qq, rr = (float(x) for x in o.get('ok').split('|'))
+            except Exception:
+                bad.append((a, b, o))
+                continue
+            if not (0 <= rr < abs(b)) or abs(qq * b + rr - a) > 1e-9:
+                bad.append((a, b, qq, rr))
+        print(json.dumps(bad[:6]))
+        return bool(bad)
     if d.get('kind') == 'compare':
         err = build_tool('render')
         inp = '\n'.join(json.dumps(q) for q, _ in d['requests']) + '\n'
@@ -2896,6 +2913,118 @@ def check_integer_literal_radix(mir):
     else:
         res.update(verdict='unsat', conflict='integer parses of eat_number do not all use the literal\'s radix (radix parses: %s, radix-less: %s)' % (radix_parses, plain_parses))
     return res
+
+
+def check_euclidean_arms(mir):
+    """ops::int_div and ops::rem: the integer arm decides with checked_div_euclid / checked_rem_euclid and the float
+    arm with f64::div_euclid / f64::rem_euclid on EVERY path that returns Ok (so that // and % agree with each other)"""
+    out = []
+    for name, int_rx, flt_rx in (('int_div', r'core::num::<impl i128>::checked_div_euclid\(', r'std::f64::<impl f64>::div_euclid\('),
+                                 ('rem', r'core::num::<impl i128>::checked_rem_euclid\(', r'std::f64::<impl f64>::rem_euclid\(')):
+        text = function_text(mir, r'^fn (?:value::)?(?:ops::)?%s\(_1: &value::Value, _2: &value::Value\)' % name)
+        if text is None:
+            out.append(dict(function='ops::' + name, verdict='unknown', conflict='not found in the MIR'))
+            continue
+        fn = parse_function(text)
+        adj, preds = cfg(fn)
+        s_ = z3.Solver()
+        s_.set('timeout', 30000)
+        D = {b: z3.Int('E_%s_%s' % (name, b)) for b in fn['blocks'] if not fn['blocks'][b]['cleanup']}
+        s_.add(D['bb0'] == 0)
+        hits = {'int': 0, 'float': 0}
+        other_arith = []
+        for bid in D:
+            blk = fn['blocks'][bid]
+            _, callee = call_of(blk['term'])
+            hit = 0
+            if callee and re.match(int_rx, callee):
+                hit = 1
+                hits['int'] += 1
+            elif callee and re.match(flt_rx, callee):
+                hit = 1
+                hits['float'] += 1
+            elif callee and re.search(r'<impl (?:f64|i128)>::(?:floor|trunc|round|div_floor|checked_div|checked_rem|wrapping_\w+)\(', callee):
+                other_arith.append(callee[:60])
+            for st in blk['stmts']:
+                if re.match(r'_\d+ = (?:Div|Rem)\(', st):
+                    other_arith.append(st[:60])
+            # a successful result is built in this block
+            if any(re.match(r'_0 = Result::<value::Value, error::Error>::Ok\(', st) for st in blk['stmts']):
+                s_.add(D[bid] == 1)
+            for label, tgt in adj[bid]:
+                if tgt in D and fn['blocks'][tgt]['term'] != 'return;':
+                    s_.add(D[tgt] == (1 if (hit and label == 'ok') else D[bid]))
+        t0 = time.time()
+        r = s_.check()
+        res = dict(function='ops::' + name, euclid_calls=hits, other_division=other_arith, z3_s=round(time.time() - t0, 3))
+        if r == z3.sat and hits['int'] and hits['float'] and not other_arith:
+            res.update(verdict='sat')
+        elif r in (z3.sat, z3.unsat):
+            res.update(verdict='unsat', conflict='ops::%s returns Ok on a path that does not decide with the Euclidean primitive of its arm (integer calls %d, float calls %d, other division %s)' % (
+                name, hits['int'], hits['float'], other_arith[:2]))
+        else:
+            res.update(verdict=str(r))
+        out.append(res)
+    return out
+
+
+def run_euclid(prop, tier, seed):
+    t0 = time.time()
+    ev = dict(engine='M', violations=[], known_hits=[], problems=[], coverage={})
+    try:
+        mir = dump_mir(REPO, os.path.join(BUILD, 'mir'))
+    except MirError as e:
+        ev['problems'].append('engine M: %s' % e)
+        return ev
+    results = check_euclidean_arms(mir)
+    err = build_tool('render')
+    if err:
+        ev['problems'].append('engine M: render tool did not build')
+        return ev
+    import math
+    avals = [7.5, -7.5, 7.0, -7.0, 0.5, -0.5, 0.0, 9, -9]
+    bvals = [2.0, -2.0, 0.5, -0.5, 3, -3, 2.5]
+    reqs, keys = [], []
+    for a in avals:
+        for b in bvals:
+            if isinstance(a, int) and isinstance(b, int):
+                continue
+            reqs.append(dict(src='{{ a // b }}|{{ a % b }}', ctx=dict(a=a, b=b)))
+            keys.append((a, b))
+    inp = '\n'.join(json.dumps(q) for q in reqs) + '\n'
+    p = subprocess.run([os.path.join(BUILD, 'native', 'debug', 'render')], input=inp, stdout=subprocess.PIPE, stderr=subprocess.PIPE, text=True, timeout=120)
+    outs = [json.loads(l) for l in p.stdout.split('\n') if l.strip()]
+    bad = {'int_div': [], 'rem': []}
+    for (a, b), o in zip(keys, outs):
+        t = o.get('ok')
+        try:
+            q, r_ = (float(x) for x in t.split('|'))
+        except Exception:
+            bad['rem'].append('%r, %r: %s' % (a, b, o))
+            continue
+        want_r = a - b * math.floor(a / b) if b > 0 else a - b * math.ceil(a / b)
+        want_q = (a - want_r) / b
+        if not (0 <= r_ < abs(b)) or abs(r_ - want_r) > 1e-9:
+            bad['rem'].append('%r %% %r renders %r, the Euclidean remainder is %r' % (a, b, r_, want_r))
+        if abs(q - want_q) > 1e-9 or abs(q * b + r_ - a) > 1e-9:
+            bad['int_div'].append('%r // %r renders %r (and %% %r): (a // b) * b + a %% b = %r, a = %r; the Euclidean quotient is %r' % (a, b, q, r_, q * b + r_, a, want_q))
+    for res in results:
+        key = res['function'].split('::')[1]
+        if res['verdict'] == 'unsat':
+            if bad.get(key):
+                rp = os.path.join(nativelib.replay_dir(), '%s-M-euclid-%s.json' % (prop, key))
+                json.dump(dict(engine='M', kind='euclid', property=prop, mir_finding=res, requests=reqs, how='bin/check %s --replay %s' % (prop, rp)), open(rp, 'w'), indent=1)
+                ev['violations'].append(dict(replay=rp, failed=[dict(desc='%s; natively: %s' % (res['conflict'], bad[key][0][:220]), loc='minijinja/src/value/ops.rs %s (MIR)' % key)]))
+            else:
+                ev['problems'].append('engine M: %s, but the float grid satisfies the Euclidean law' % res['conflict'])
+        elif res['verdict'] != 'sat':
+            ev['problems'].append('engine M: %s: %s %s' % (res['function'], res['verdict'], res.get('conflict') or ''))
+        elif bad.get(key):
+            ev['problems'].append('engine M: %s although %s decides with the Euclidean primitives' % (bad[key][0][:200], res['function']))
+    log('[%s] engine M (Euclidean // and %%): %s; native: %d float pairs, %d wrong' % (prop, ' '.join('%s=%s' % (r_['function'], r_['verdict']) for r_ in results), len(outs), sum(len(v) for v in bad.values())))
+    ev['coverage'] = dict(queries=len(results), results=results, native_scenarios=len(outs), native_scenarios_failing=sum(len(v) for v in bad.values()), check='euclidean_arms')
+    ev['wall_s'] = round(time.time() - t0, 1)
+    return ev
 
 
 def run_literal_radix(prop, tier, seed):
